@@ -219,6 +219,8 @@ func init() {
 			fn := samplePaths(funcPaths(tier, rng), tierN(tier, 80, 1000), rng)
 			ps := dedupPaths(append(append(append(fl, one...), two...), fn...))
 			jobs := evalJobs("c04", ps, "C04", tier, false, false)
+			// json.Number decoding (conversions must not be written back into the document)
+			jobs = append(jobs, evalJobs("c04n", samplePaths(ps, tierN(tier, 400, 3000), rng), "C04", tier, false, true)...)
 			// accessor mode without Set
 			acc := samplePaths(ps, tierN(tier, 150, 2000), rng)
 			for i, p := range acc {
